@@ -13,6 +13,12 @@ import (
 
 // ownerOf returns the named struct type that owns the field addressed by fa.
 func ownerOf(fa *ssa.FieldAddr) *types.Named {
+	// a promoted field belongs to the struct that embeds its holder
+	if outer, ok := fa.X.(*ssa.FieldAddr); ok {
+		if st, isSt := derefStruct(outer.X.Type()); isSt && outer.Field < st.NumFields() && st.Field(outer.Field).Embedded() {
+			return ownerOf(outer)
+		}
+	}
 	t := fa.X.Type()
 	if p, ok := t.Underlying().(*types.Pointer); ok {
 		t = p.Elem()
@@ -269,4 +275,12 @@ func isRangeFuncPanic(in ssa.Instruction) bool {
 		}
 	}
 	return false
+}
+
+func derefStruct(t types.Type) (*types.Struct, bool) {
+	if p, ok := t.Underlying().(*types.Pointer); ok {
+		t = p.Elem()
+	}
+	st, ok := types.Unalias(t).Underlying().(*types.Struct)
+	return st, ok
 }
